@@ -715,6 +715,13 @@ pub proof fn lemma_gcd_strip_subtract(u: nat, v: nat, k: nat)
     }
 }
 
+/// (a*b)*(c*d) == (a*c)*(b*d)
+pub proof fn lemma_mul_swap_inner(a: int, b: int, c: int, d: int)
+    ensures (a * b) * (c * d) == (a * c) * (b * d)
+{
+    assert((a * b) * (c * d) == (a * c) * (b * d)) by (nonlinear_arith);
+}
+
 /// equal values have equal cross products: c1/10^f1 = c2/10^f2 (stated at the common scale m),
 /// n1/d1 = c1/10^f1, n2/d2 = c2/10^f2  ==>  n1*d2 = n2*d1
 pub proof fn lemma_equal_value_cross(c1: int, f1: nat, c2: int, f2: nat, m: nat, n1: int, d1: int, n2: int, d2: int)
@@ -735,12 +742,18 @@ pub proof fn lemma_equal_value_cross(c1: int, f1: nat, c2: int, f2: nat, m: nat,
     lemma_pow10_pos(m);
     assert(f1 + ((m - f1) as nat) == m && f2 + ((m - f2) as nat) == m);
     assert(t == p * a && t == q * b);
+    // (n1*d2) * t == (c1*a) * (d1*d2)  and  (n2*d1) * t == (c2*b) * (d1*d2), by ring identities only
     let l = n1 * d2;
     let r = n2 * d1;
-    assert(l * t == ((c1 * a) * d1) * d2) by (nonlinear_arith)
-        requires l == n1 * d2, t == p * a, n1 * p == c1 * d1;
-    assert(r * t == ((c2 * b) * d1) * d2) by (nonlinear_arith)
-        requires r == n2 * d1, t == q * b, n2 * q == c2 * d2;
+    lemma_mul_swap_inner(n1, d2, p, a);          // (n1*d2)*(p*a) == (n1*p)*(d2*a)
+    lemma_mul_swap_inner(c1, d1, a, d2);         // (c1*d1)*(a*d2) == (c1*a)*(d1*d2)
+    assert(d2 * a == a * d2) by (nonlinear_arith);
+    assert(l * t == (c1 * a) * (d1 * d2));
+    lemma_mul_swap_inner(n2, d1, q, b);          // (n2*d1)*(q*b) == (n2*q)*(d1*b)
+    lemma_mul_swap_inner(c2, d2, b, d1);         // (c2*d2)*(b*d1) == (c2*b)*(d2*d1)
+    assert(d1 * b == b * d1) by (nonlinear_arith);
+    assert(d2 * d1 == d1 * d2) by (nonlinear_arith);
+    assert(r * t == (c2 * b) * (d1 * d2));
     assert(l == r) by (nonlinear_arith) requires l * t == r * t, t > 0;
 }
 
